@@ -348,13 +348,13 @@ def parts(tier):
     fuzz = []
     if not quick:
         seed = int(__import__("os").environ.get("VERIF_SEED", "1") or "1")
-        fuzz = [EnumPart(name="atheris", check=check_atheris, exhaustive=False, seconds=400,
+        fuzz = [EnumPart(name="atheris", check=check_atheris, exhaustive=False, seconds=330,
                          items=lambda: [{"runs": 2500, "seed": seed * 100 + i, "corpus": "seeded" if i % 2 == 0 else "empty",
-                                         "timeout": 240} for i in range(16)])]
+                                         "timeout": 200} for i in range(16)])]
     return fuzz + [HypPart(name="texts", check=check, strategy=_case,
-                    examples=110 if quick else 4000, seconds=42 if quick else 600),
+                    examples=110 if quick else 4000, seconds=42 if quick else 420),
             HypPart(name="whitelist", check=check_whitelist, strategy=_wl_case,
-                    examples=30 if quick else 500, seconds=25 if quick else 400)]
+                    examples=30 if quick else 500, seconds=25 if quick else 240)]
 
 
 # ---------------------------------------------------------------- whitelist histories
